@@ -128,4 +128,70 @@ theorem hashLoop (gh : CellInfo → Option Bytes) (refs : List CellInfo) (h0 : B
       | none => simp
       | some hs => simp [List.append_assoc]
 
+/-! ### the level loop: simulation with an invariant -/
+
+/-- a loop over `range n` on an encoded state, with an invariant `P i st` on (position, state): the steps only have to commute with
+the encoding on states the loop can reach -/
+theorem foldlM_sim_range' {σ τ : Type} (enc : τ → σ) (f : σ → Nat → Option σ) (g : τ → Nat → Option τ) (P : Nat → τ → Prop)
+    (hpres : ∀ i t t', P i t → g t i = some t' → P (i + 1) t')
+    (h : ∀ i t, P i t → f (enc t) i = (g t i).map enc) (k : Nat) : ∀ (s : Nat) (t : τ), P s t →
+    List.foldlM f (enc t) (List.range' s k) = (List.foldlM g t (List.range' s k)).map enc := by
+  induction k with
+  | zero => intro s t _; simp
+  | succ k ih =>
+    intro s t hP
+    simp only [List.range'_succ, List.foldlM_cons, h s t hP]
+    cases hg : g t s with
+    | none => simp
+    | some t' => simp [ih (s + 1) t' (hpres s t t' hP hg)]
+
+theorem foldlM_sim_range {σ τ : Type} (enc : τ → σ) (f : σ → Nat → Option σ) (g : τ → Nat → Option τ) (P : Nat → τ → Prop)
+    (hpres : ∀ i t t', P i t → g t i = some t' → P (i + 1) t')
+    (h : ∀ i t, P i t → f (enc t) i = (g t i).map enc) (n : Nat) (t : τ) (h0 : P 0 t) :
+    List.foldlM f (enc t) (List.range n) = (List.foldlM g t (List.range n)).map enc := by
+  rw [List.range_eq_range']
+  exact foldlM_sim_range' enc f g P hpres h n 0 t h0
+
+/-- the invariant of the level loop of `calculate_hashes`: `hash_index` is 0 exactly before level 0 is processed -/
+def levelInv (li : Nat) (st : HashState) : Prop := (li = 0 ∧ st.hashIndex = 0) ∨ (0 < li ∧ 0 < st.hashIndex)
+
+theorem hashStep_hashIndex (H : Bytes → Bytes) (kind : Int) (bits : Bits) (refs : List CellInfo) (mask offset : Nat)
+    (st st' : HashState) (li : Nat) (h : hashStep H kind bits refs mask offset st li = some st') :
+    (st'.hashIndex = st.hashIndex + 1) ∨ (st'.hashIndex = st.hashIndex ∧ isSignificant mask li = false) := by
+  unfold hashStep at h
+  by_cases hs : isSignificant mask li = true
+  · simp only [hs, Bool.not_true, Bool.false_eq_true, if_false] at h
+    by_cases hlt : st.hashIndex < offset
+    · simp only [hlt, if_true, Option.some.injEq] at h
+      subst h; exact Or.inl rfl
+    · simp only [hlt, if_false] at h
+      left
+      simp only [Option.bind_eq_bind, Option.pure_def] at h
+      cases hd : descriptors refs.length (kind != kOrdinary) bits.length (maskApply mask li) with
+      | none => simp [hd] at h
+      | some dsc =>
+        simp only [hd, Option.bind_some] at h
+        split at h <;>
+          (simp only [Option.bind_eq_some_iff, Option.some.injEq] at h
+           obtain ⟨_, _, _, _, _, _, _, _, _, _, rfl⟩ := h
+           rfl)
+  · simp only [hs, Bool.not_false, if_true, Option.some.injEq] at h
+    subst h
+    simp at hs
+    exact Or.inr ⟨rfl, hs⟩
+
+theorem levelInv_step (H : Bytes → Bytes) (kind : Int) (bits : Bits) (refs : List CellInfo) (mask offset : Nat)
+    (li : Nat) (st st' : HashState) (hP : levelInv li st) (h : hashStep H kind bits refs mask offset st li = some st') :
+    levelInv (li + 1) st' := by
+  have := hashStep_hashIndex H kind bits refs mask offset st st' li h
+  have h0 : isSignificant mask 0 = true := by simp [isSignificant]
+  unfold levelInv at *
+  right
+  refine ⟨by omega, ?_⟩
+  rcases hP with ⟨rfl, _⟩ | ⟨_, hp⟩
+  · rcases this with h1 | ⟨_, h2⟩
+    · omega
+    · rw [h0] at h2; cases h2
+  · rcases this with h1 | ⟨h1, _⟩ <;> omega
+
 end TonVerif.Proofs.SrcObj
